@@ -70,8 +70,11 @@ def main():
         rc = props.replay(pid, args.replay)
         sys.exit(rc)
 
-    os.makedirs(os.path.join(VERIF, "evidence"), exist_ok=True)
-    os.makedirs(os.path.join(VERIF, "replays"), exist_ok=True)
+    # VERIF_OUT: where evidence/ and replays/ are written (default: /verif itself; runs against a patched
+    # copy of the repository write elsewhere, so that they never overwrite evidence of the unchanged tree)
+    OUT = os.environ.get("VERIF_OUT", VERIF)
+    os.makedirs(os.path.join(OUT, "evidence"), exist_ok=True)
+    os.makedirs(os.path.join(OUT, "replays"), exist_ok=True)
 
     # 1. proof obligations
     aud = audit.audit(pid, with_checker=(args.tier == "thorough"))
@@ -115,10 +118,10 @@ def main():
     lines = []
     if violations:
         v = violations[0]
-        path = os.path.join(VERIF, "replays", "%s-%d.json" % (pid, seed))
+        path = os.path.join(OUT, "replays", "%s-%d.json" % (pid, seed))
         json.dump(dict(property=pid, kind="failing-input", seed=seed, tier=args.tier, violation=v,
                        others=violations[1:5]), open(path, "w"), indent=1, default=str)
-        lines.append("VIOLATION property=%s replay=%s" % (pid, os.path.relpath(path, VERIF)))
+        lines.append("VIOLATION property=%s replay=%s" % (pid, os.path.relpath(path, OUT)))
         exit_code = 1
     else:
         broken = []
@@ -132,18 +135,18 @@ def main():
             # search harder for a failing input before reporting "no longer shown to hold"
             extra = props.widen_search(ctx)
             extra = [v for v in extra if props.match_known(v, known) is None]
-            path = os.path.join(VERIF, "replays", "%s-%d.json" % (pid, seed))
+            path = os.path.join(OUT, "replays", "%s-%d.json" % (pid, seed))
             if extra:
                 json.dump(dict(property=pid, kind="failing-input", seed=seed, tier=args.tier, violation=extra[0],
                                broken=broken[:10]), open(path, "w"), indent=1, default=str)
-                lines.append("VIOLATION property=%s replay=%s" % (pid, os.path.relpath(path, VERIF)))
+                lines.append("VIOLATION property=%s replay=%s" % (pid, os.path.relpath(path, OUT)))
             else:
                 json.dump(dict(property=pid, kind="no-longer-shown", seed=seed, tier=args.tier,
                                no_longer_checks=broken[:20],
                                note="the theorem(s) or the model/code correspondence named here no longer check; "
                                     "the search found no input on which the property itself fails"),
                           open(path, "w"), indent=1, default=str)
-                lines.append("VIOLATION property=%s replay=%s no-failing-input-found" % (pid, os.path.relpath(path, VERIF)))
+                lines.append("VIOLATION property=%s replay=%s no-failing-input-found" % (pid, os.path.relpath(path, OUT)))
             exit_code = 1
 
     # 5. evidence
@@ -159,7 +162,7 @@ def main():
     ev = dict(property_id=pid, tier=args.tier, seed=seed, level="proof", coverage=cov,
               assumptions=P.get("assumptions", []), wall_s=round(time.time() - T0, 2),
               violations=len(violations) + (1 if exit_code == 1 and not violations else 0))
-    json.dump(ev, open(os.path.join(VERIF, "evidence", "%s.json" % pid), "w"), indent=1, default=str)
+    json.dump(ev, open(os.path.join(OUT, "evidence", "%s.json" % pid), "w"), indent=1, default=str)
     for ln in lines:
         print(ln)
     print("%s %s tier=%s seed=%d obligations=%d/%d evaluations=%d distinct_nontrivial=%d disagreements(footprint)=%d wall=%.1fs" % (
